@@ -382,33 +382,16 @@ end OpmVerif.Lex
 namespace OpmVerif.Tok
 open OpmVerif.Lex
 
-/-- **The tokeniser stays inside the record view iff no quoted token is left open**: when
-the scan ends outside a quoted token, the byte behind the view (`next`) is never used … -/
-theorem tok_inbounds (next next' : UInt8) : ∀ (l : Bytes) (st : TState),
-    tokState st l ≠ some true → tok next st l = tok next' st l := by
-  intro l
-  induction l with
-  | nil =>
-    intro st h
-    cases st with
-    | none => rfl
-    | some q => cases q with
-      | false => rfl
-      | true => exact absurd rfl h
-  | cons c r ih =>
-    intro st h
-    rw [tok_cons, tok_cons, ih (tokStep st c) (by simpa [tokState] using h)]
-
-theorem tokenize_inbounds (record : Bytes) (next next' : UInt8) (h : tokState none record ≠ some true) :
-    tokenize record next = tokenize record next' :=
-  tok_inbounds next next' record none h
-
-/-- … and the check `RawRecord` performs afterwards (an even number of `'` in the record)
-does **not** exclude the other case: `ab'c 'd` has two quotes, yet the last token is
-unterminated and `std::find(...) + 1` steps one byte past the view (the token then
-contains the record's `/`).  (Finding reported for C20; the model mirrors the code.) -/
+/-- The tokeniser model has no access to anything but the record view: `tok` is a total
+structural recursion over the bytes of the record (since fix fb4827176 an unterminated
+quoted token ends at the end of the record; before, `std::find(...) + 1` stepped one byte
+past it and the token took the record's `/`).  `even_quotes` still does not exclude the
+unterminated case — two quotes, the second one opening a token that is never closed: -/
 example : evenQuotes [97, 98, 39, 99, 32, 39, 100] = true ∧
-    tokState none [97, 98, 39, 99, 32, 39, 100] = some true ∧
-    rawRecord [97, 98, 39, 99, 32, 39, 100] 47 = some [[97, 98, 39, 99], [39, 100, 47]] := by decide
+    rawRecord [97, 98, 39, 99, 32, 39, 100] = some [[97, 98, 39, 99], [39, 100]] := by decide
+
+/-- the look-ahead of the `n*'…` extension reads only the rest of the record. -/
+example : tokenize [50, 42, 39, 65, 32, 66, 39, 32, 55] = [[50, 42, 39, 65, 32, 66, 39], [55]] ∧
+    tokenize [50, 42, 39, 65, 32, 66] = [[50, 42, 39, 65], [66]] := by decide
 
 end OpmVerif.Tok
